@@ -154,6 +154,9 @@ def run(ctx):
         line=sdd.node.lineno,
     )
     ctx.section(numeric_rule, ctx, index)
+    from . import c02
+
+    ctx.section(c02._typewalk, ctx, index, "C01.typewalk")
     # "rendering ... and parsing back" is quantified over interfaces, not over processes: one parse must not leave
     # anything behind for the next (a memo, a flag on a module-level function, a shared default). C10's call-history
     # rules on the docstring emitter / parser slice.
